@@ -221,9 +221,9 @@ fn cmd_batch(args: &Args) -> i32 {
     }
     j.set("counters", c);
     // one actual case written out: the first lines of the transcript of the first run of this batch
-    let sample_run = run_search(&e, tier, seed, cfg.start, true);
     let mut samples: Vec<J> = Vec::new();
-    {
+    if !args.flag("--no-sample") {
+        let sample_run = run_search(&e, tier, seed, cfg.start, true);
         let mut o = J::obj();
         o.set("run_index", J::u(cfg.start));
         o.set("summary", J::s(&sample_run.out.summary));
